@@ -704,3 +704,77 @@ class CreateEmptySpec(FunctionSpec):
             return z3.BoolVal(bool(same and ents is not None and len(ents) == 0 and nocap))
 
         return [ret("the-one-empty-quantity", T, props=("C09", "C07"), check=chk)]
+
+
+@register
+class CreateDerivedSpec(FunctionSpec):
+    """Quantity.CreateDerived(composing map) - the validating way to build a derived quantity (C05: a value
+    whose unit does not belong to its category's quantity type is never created).  Entries are checked in
+    order: an unregistered category raises InvalidQuantityTypeError, a unit that is not a unit of the
+    category's quantity type raises InvalidUnitError (legacy spellings are not accepted here); otherwise
+    the quantity with exactly these entries is returned (ObtainQuantity's contract)."""
+
+    fq = Q_MOD + ":Quantity._CreateDerived"
+    props = ("C05", "C07")
+    callees = (Q_MOD + ":ObtainQuantity", UDB + ":UnitDatabase.GetInfo")
+    probe = "create_derived"
+
+    def variants(self, tier):
+        return [("dict2", "nocap", "list"), ("dict2", "nocap", "tuple"), ("dict1", "nocap", "list")] + ([("dict3", "nocap", "list")] if tier == "thorough" else [])
+
+    def setup(self, I, variant):
+        from .values import harness
+
+        oq = REGISTRY[Q_MOD + ":ObtainQuantity"]
+        ctx = oq.setup(I, variant)
+        m = ctx["unit"]
+        cls = SClass(I.repo.cls(Q_MOD + ":Quantity"))
+        ctx["f"] = harness(lambda I: I.call(I.getattr(cls, "CreateDerived"), [m]))
+        ctx["args"] = []
+        ctx["map"] = m
+        return ctx
+
+    def cases(self, I, ctx):
+        R, st = ctx["R"], ctx["st"]
+        ents = ctx["dict_entries"]
+        out = []
+        prev = T
+        for i, (c, u, e) in enumerate(ents):
+            reg = S(st["C_dom"], c)
+            out.append(rai("entry%d/unknown-category" % i, z3.And(prev, z3.Not(reg)), "InvalidQuantityTypeError", props=("C05",)))
+            qt = S(st["C_qt"], c)
+            oks = []
+            for n, g, k, x in getinfo_cases(R, st, qt, u, False, False):
+                if k == "raise":
+                    out.append(rai("entry%d/%s" % (i, n), z3.And(prev, reg, g), x, props=("C05",)))
+                else:
+                    oks.append(g)
+            prev = z3.And(prev, reg, z3.Or(*oks))
+        simple_form = z3.And(ents[0][2] == 1) if len(ents) == 1 else F
+        out.append(unspecified("single-entry-exponent-1 (the simple form validates it)", z3.And(prev, simple_form)))
+
+        def chk(I, res):
+            if not (isinstance(res, SRef) and isinstance(res.o, HObj) and res.o.cls.name == "Quantity"):
+                return F
+            m = res.o.fields.get("_category_to_unit_and_exps")
+            if not (isinstance(m, SRef) and isinstance(m.o, HDict) and len(m.o.entries) == len(ents)):
+                return F
+            conj = []
+            for (k, v), (c, u, e) in zip(m.o.entries, ents):
+                items = v.o.items if isinstance(v, SRef) and isinstance(v.o, HList) else (v.items if isinstance(v, STuple) else None)
+                if items is None or len(items) != 2:
+                    return F
+                conj += [k.name == c, items[0].name == u, items[1].t == e]
+            return z3.And(*conj)
+
+        out.append(ret("every-unit-belongs-to-its-category's-type: the quantity with these entries", z3.And(prev, z3.Not(simple_form)), props=("C05", "C07"), check=chk))
+        return out
+
+    def extra_obligations(self, I, ctx, outcome):
+        m = ctx["map"]
+        return [("frame[registry: only memo and intern table]", ("C15", "C05"), all(w[0] in ("M", "K") for w in ctx["R"].writes))]
+
+    def allowed_write(self, I, ctx, obj, what):
+        if getattr(obj, "region", "") == "quantity" and what[1] in LAZY_SLOTS:
+            return True
+        return FunctionSpec.allowed_write(self, I, ctx, obj, what)
